@@ -430,3 +430,34 @@ func closureOfArg(v ssa.Value) *ssa.Function {
 	}
 	return nil
 }
+
+// mapRangeLoops finds `for k, v := range m` loops over maps: header is the block holding the Next.
+func mapRangeLoops(fn *ssa.Function) []rloop {
+	lb := loopBlocks(fn)
+	var out []rloop
+	for _, b := range fn.Blocks {
+		for _, in := range b.Instrs {
+			nx, ok := in.(*ssa.Next)
+			if !ok {
+				continue
+			}
+			rg, ok := nx.Iter.(*ssa.Range)
+			if !ok {
+				continue
+			}
+			if _, isMap := rg.X.Type().Underlying().(*types.Map); !isMap {
+				continue
+			}
+			body, isLoop := lb[b]
+			if !isLoop || len(b.Succs) != 2 {
+				continue
+			}
+			l := rloop{header: b, body: b.Succs[0], over: rg.X, blocks: map[*ssa.BasicBlock]bool{}}
+			for _, x := range body {
+				l.blocks[x] = true
+			}
+			out = append(out, l)
+		}
+	}
+	return out
+}
